@@ -11,6 +11,10 @@ Modes
              code with the real numpy; also the run-time tier)
 The same harness text (inputs + call of the real function + contract clauses) runs in both modes.
 """
+import sys as _sys
+if hasattr(_sys, 'set_int_max_str_digits'):
+    _sys.set_int_max_str_digits(0)      # counter-models and exact rational arithmetic produce integers of many thousand digits
+
 import z3, math, fractions, time, operator, traceback, os, subprocess, tempfile
 import numpy as _np
 
